@@ -95,6 +95,7 @@ def Op.touches (k : Key) (a : Action) : Op → Bool
   | .cleanup _ => true
   | .checkOnly _ addr a' => decide (throttleKey addr = k ∧ a' = a)
   | .throttleOnly _ addr a' => decide (throttleKey addr = k ∧ a' = a)
+  | .par _ addr a' _ => decide (throttleKey addr = k ∧ a' = a)
 
 /-- Outcomes of the ops that concern key/action `(k, a)`, in order. -/
 def outsFor (k : Key) (a : Action) (st : State) : List Op → List Out
@@ -126,6 +127,10 @@ theorem step_frame (st : State) (op : Op) (k : Key) (a : Action) (h : op.touches
     unfold step throttle
     simp only [State.set]
     rw [if_neg]; intro ⟨h1, h2⟩; exact h h1.symm h2.symm
+  | par now addr a' n =>
+    apply step_par_frame
+    simp [Op.touches] at h
+    intro ⟨h1, h2⟩; exact h h1.symm h2.symm
 
 /-- What a touching op does at `(k,a)` and what it answers depend only on the
 entry list of `(k,a)`. -/
@@ -153,6 +158,12 @@ theorem step_local (st st' : State) (op : Op) (k : Key) (a : Action)
     obtain ⟨rfl, rfl⟩ := h
     unfold step throttle
     simp [State.set, heq]
+  | par now addr a' n =>
+    simp [Op.touches] at h
+    obtain ⟨rfl, rfl⟩ := h
+    obtain ⟨h1, h2⟩ := step_par_at st now addr a' n
+    obtain ⟨h1', h2'⟩ := step_par_at st' now addr a' n
+    rw [h1, h2, h1', h2', heq]; exact ⟨rfl, rfl⟩
 
 /-- **Independence.** The outcomes seen by one address-key/action are the same
 whether or not any other address or action is active in between, and whatever
@@ -242,25 +253,119 @@ example : (run State.empty (tenFailures ++ [.attempt (s 10) addrA "HelloResume" 
                                             .attempt (s 1870) addrA "HelloResume" false])).2.drop 9
     = [.delayed 25000000000, .refused, .passed] := by decide +kernel
 
-/-! ## 6. Concurrency (partial)
+/-! ## 6. Concurrency
 
-`CheckBruteforce` reads the entries under the read lock and writes the pruned
-list back under the write lock later; `throttle` appends under the write lock.
-Whole ops (`check`, `throttle`, `cleanup`) are atomic, so every interleaving of
-*whole* calls is one of the op sequences above (sections 3–4 need no more).
-Section 2 assumes that a check and its throttle are not separated by another
-attempt on the same key/action and that the clock is monotone.  What the
-stale write-back inside `CheckBruteforce` can do is shown here on the model of
-the two phases: a failure recorded between the read and the write-back is lost. -/
+The model is sequential: each op is one step.  What ties this to code that is called from many
+goroutines is regenerated on every run (`Generated/Throttle.lean`, `*Paths`): for every control-flow
+path of a method, the critical sections of the throttler's mutex it goes through, and which kinds of
+access to the failure table happen inside each.
 
-/-- `CheckBruteforce` split at its lock boundary: the write-back uses the list
-read earlier. -/
-def writeBack (st : State) (now : Int) (k : Key) (a : Action) (readEarlier : List Int) : State :=
-  if readEarlier = [] ∨ blocked now readEarlier then st
-  else if (filterEntries now readEarlier).length ≠ readEarlier.length
-    then st.set k a (filterEntries now readEarlier) else st
+* `addEntry` (hence `throttle`) reads the entry list and writes the extended list inside ONE
+  write-locked section on every path.  `C17_concurrent_failures_all_recorded` turns that into a
+  statement about all interleavings, `C17_concurrent_equals_sequential` into the step the model takes
+  (`throttle`, `par`), so the refinement theorems of section 2 (`C17_block_iff_window`, which covers
+  `par`) speak about concurrent failures as long as `C17_atomicity_facts` holds.
+* `cleanup`, `setEntries`, `getEntries`: one section each; no access to the table outside the mutex; no
+  write under the read lock; no other function touches the table.
+* `CheckBruteforce` is NOT one section: it reads the list under the read lock and, on some paths, writes
+  the pruned list back in a later write-locked section.  A failure recorded in between is lost exactly
+  when that write-back happens — and it happens only when pruning removed something, i.e. when the
+  list read began with a record older than twelve hours (`C17_stale_writeback_harmless`, relying on the
+  regenerated guard `writeBackOnlyIfPruned`); `C17_concurrent_lost_update` is the remaining witness
+  (property part "including concurrent attempts" stays partial for that one window). -/
 
-/-- Witness: entry list `[old]` (older than 12 h); thread A reads it, thread B
+/-- **The locking facts the sequential model relies on**, recomputed from the source on every run. -/
+theorem C17_atomicity_facts :
+    tableAccessors = ["addEntry", "cleanup", "getEntries", "setEntries"] ∧
+    (wellLocked getEntriesPaths ∧ wellLocked setEntriesPaths ∧ wellLocked addEntryPaths ∧
+      wellLocked cleanupPaths ∧ wellLocked throttlePaths ∧ wellLocked checkBruteforcePaths) = true ∧
+    -- recording a failure: the list is read and the extended list written in one write-locked section
+    addEntryPaths = [[("W", ["read", "write"])]] ∧ throttlePaths = addEntryPaths ∧
+    (getEntriesPaths.all (·.length = 1) ∧ setEntriesPaths.all (·.length = 1) ∧
+      cleanupPaths.all (·.length = 1)) = true ∧
+    -- CheckBruteforce: a read-locked read first, then at most one separate write-locked section …
+    checkBruteforcePaths.all (fun p => p.head? = some ("R", ["read"]) ∧ p.length ≤ 2) = true ∧
+    -- … which is entered only when pruning changed the list
+    writeBackOnlyIfPruned = true := by decide
+
+/-- `CheckBruteforce` really is split (so the caveat below is about the code as it is). -/
+example : checkBruteforcePaths.any (fun p => p.length = 2 ∧ (p.getLast?.map (·.1)) = some "W") = true := by decide
+
+/-- **Every interleaving records every failure.**  `n` goroutines are inside `addEntry` for the same
+key/kind, each following one of the regenerated paths; the scheduler runs their critical sections in any
+order (`schedule`, arbitrary, may name finished or non-existent threads).  Once all have finished, the
+entry list is the initial one followed by `n` new records: none is lost, none is duplicated. -/
+theorem C17_concurrent_failures_all_recorded (init : List Int) (now : Int) (progs : List Prog)
+    (hp : ∀ p ∈ progs, p ∈ addEntryProgs) (schedule : List Nat)
+    (hdone : ((Conc.start init now progs).run schedule).pending = 0) :
+    ((Conc.start init now progs).run schedule).shared = init ++ List.replicate progs.length now := by
+  have h := (ConcInv.start C17_atomicity_facts.2.2.1 init now progs hp).run schedule
+  obtain ⟨_, _, hsh⟩ := h
+  rw [hsh, hdone]; simp
+
+/-- … which is what the sequential model does for `n` `throttle` calls one after the other (and for its
+`par` step): every interleaving is equivalent to a sequential order. -/
+theorem C17_concurrent_equals_sequential (st : State) (now : Int) (k : Key) (a : Action)
+    (progs : List Prog) (hp : ∀ p ∈ progs, p ∈ addEntryProgs) (schedule : List Nat)
+    (hdone : ((Conc.start (st k a) now progs).run schedule).pending = 0) :
+    ((Conc.start (st k a) now progs).run schedule).shared = throttleN st now k a progs.length k a := by
+  rw [C17_concurrent_failures_all_recorded (st k a) now progs hp schedule hdone, throttleN_at]
+
+/-- Non-vacuity: three threads, a schedule under which all finish. -/
+example : ((Conc.start [1, 2] 7 (List.replicate 3 [[Acc.read, Acc.write]])).run [2, 0, 2, 1]).pending = 0 ∧
+    ((Conc.start [1, 2] 7 (List.replicate 3 [[Acc.read, Acc.write]])).run [2, 0, 2, 1]).shared = [1, 2, 7, 7, 7] := by
+  decide
+
+/-- The theorem is about the sections, not about the accesses: the same accesses in two sections
+(read under one lock, write under the next) lose a record under the schedule read/read/write/write. -/
+example : ((Conc.start [1, 2] 7 (List.replicate 2 [[Acc.read], [Acc.write]])).run [0, 1, 0, 1]).pending = 0 ∧
+    ((Conc.start [1, 2] 7 (List.replicate 2 [[Acc.read], [Acc.write]])).run [0, 1, 0, 1]).shared = [1, 2, 7] := by
+  decide
+
+/-- `CheckBruteforce` without interference is its two sections one after the other. -/
+theorem C17_check_is_read_then_writeBack (st : State) (now : Int) (k : Key) (a : Action) :
+    (check st now k a).1 = writeBack st now k a (st k a) := by
+  have hg : writeBackOnlyIfPruned = true := C17_atomicity_facts.2.2.2.2.2.2
+  unfold check writeBack
+  by_cases h0 : st k a = []
+  · simp [h0]
+  · by_cases hb : blocked now (st k a) = true
+    · simp [h0, hb]
+    · simp only [h0, hb, hg, Bool.true_and, false_or, if_false, Bool.false_eq_true]
+      by_cases hl : (filterEntries now (st k a)).length = (st k a).length
+      · obtain ⟨m, h1, h2, _, _⟩ := filterEntries_eq_drop now (st k a)
+        have hm : m = 0 := by
+          have : (filterEntries now (st k a)).length = (st k a).length - m := by rw [h1]; simp
+          have hpos : 0 < (st k a).length := List.length_pos_iff.mpr h0
+          omega
+        have heq : filterEntries now (st k a) = st k a := by rw [h1, hm]; simp
+        simp only [hl, beq_self_eq_true, if_true]
+        funext k' a'
+        simp only [State.set, heq]
+        split
+        · rename_i h; rw [h.1, h.2]
+        · rfl
+      · simp [hl]
+
+/-- **A stale write-back needs a record older than twelve hours.**  Whatever happened to the table
+between the read and the write-back section of `CheckBruteforce` (`st` is arbitrary — e.g. concurrent
+failures were appended), the write-back leaves it untouched unless pruning shortened the list that was
+read.  Relies on the regenerated guard `writeBackOnlyIfPruned`. -/
+theorem C17_stale_writeback_harmless (st : State) (now : Int) (k : Key) (a : Action) (readEarlier : List Int)
+    (hyoung : filterEntries now readEarlier = readEarlier) :
+    writeBack st now k a readEarlier = st := by
+  have hg : writeBackOnlyIfPruned = true := C17_atomicity_facts.2.2.2.2.2.2
+  unfold writeBack
+  simp [hg, hyoung]
+
+/-- In particular, after one connection's check has passed at `now` (which prunes), further checks of
+the same key/kind at that time change nothing, however many of the concurrent failures they happen to
+see: this is why the `par` step of the model ignores the checks that run alongside the failures. -/
+theorem C17_concurrent_checks_harmless (st : State) (now : Int) (k : Key) (a : Action) (es : List Int) (j : Nat) :
+    writeBack st now k a (filterEntries now es ++ List.replicate j now) = st :=
+  C17_stale_writeback_harmless st now k a _ (filterEntries_after_check now es j)
+
+/-- Witness of what remains: entry list `[old]` (older than 12 h); thread A reads it, thread B
 records a failure, A writes back the pruned (empty) list: B's failure is gone. -/
 theorem C17_concurrent_lost_update :
     let k := throttleKey addrA
@@ -271,6 +376,14 @@ theorem C17_concurrent_lost_update :
     let st1 := (throttle st0 now k "X").1          -- B: check passed earlier, now throttles
     let st2 := writeBack st1 now k "X" readA        -- A: stale write-back
     st1 k "X" = [old, now] ∧ st2 k "X" = [] := by
+  decide +kernel
+
+/-- Non-vacuity of the `par` step inside `C17_block_iff_window`: seven failures, then five at once —
+all twelve are recorded, the address is blocked, the delays keep growing. -/
+example : Monotone 0 ((tenFailures.take 7) ++ [.par (s 7) addrA "HelloResume" 5, .attempt (s 8) addrA "HelloResume" true]) ∧
+    (run State.empty ((tenFailures.take 7) ++ [.par (s 7) addrA "HelloResume" 5,
+        .attempt (s 8) addrA "HelloResume" true])).2.drop 7
+      = [.rest 5 12 true [12800000000, 25000000000, 25000000000, 25000000000, 25000000000], .refused] := by
   decide +kernel
 
 end SigModel.Throttle
